@@ -33,7 +33,8 @@ GEN_FILES = ["BiotiteModel/Gen/C19.lean"]
 RULE = ("seeded symmetric distance matrices (n=2..12, small integers so ties are frequent; exact stream scaled so "
         "that every float32 mean/half is exact; additive matrices from random trees for NJ; float stream with "
         "tolerance; three large comb matrices n=258..400 that push one cluster past 256 members, oracle only; input "
-        "array must stay bit-identical and a second call must agree; malformed: asymmetric, negative, NaN/inf, too "
+        "array must stay bit-identical and a second call must agree; zero-distance stream: all-zero matrices n=4..8, star "
+        "trees / random trees with mostly zero branches (identical taxa), block matrices with Q-minimum 0 or positive; malformed: asymmetric, negative, NaN/inf, too "
         "small) through upgma/neighbor_joining, and seeded "
         "rooted trees of any arity (incl. one-child nodes) with dyadic branch lengths and random unicode labels "
         "through to_newick/from_newick (with injected whitespace, with/without distances, plus mutated strings), "
@@ -45,8 +46,9 @@ TRUSTED = ["float32 arithmetic of upgma/nj modelled as exact rational arithmetic
            "np.allclose modelled by its documented formula"]
 ASSUMPTIONS = ["'neighbour joining recovers every additive metric' is not a Lean theorem; it is checked by the oracle on "
                "random trees -> additive matrices (exact dyadic stream and float stream)"]
-LEVEL_TEXT = ("Lean theorems for all inputs on the executable model (16, no sorry): UPGMA and NJ leaves = every index "
-              "exactly once (loop invariant + termination, NJ incl. the three-way join); UPGMA merge height = half the "
+LEVEL_TEXT = ("Lean theorems for all inputs on the executable model (17, no sorry): UPGMA and NJ leaves = every index "
+              "exactly once (loop invariant + termination, NJ incl. the three-way join); NJ totality: every accepted matrix "
+              "(zero distances and ties included) yields a tree, never None; UPGMA merge height = half the "
               "average linkage of the merged clusters (invariant: matrix entry of two live clusters = mean of the "
               "original distances over their leaf pairs), every leaf under a node at distance height(node), no negative "
               "branch; distance_to/get_distance = explicit downward path sums through the LCA, LCA = longest common "
@@ -375,6 +377,38 @@ def cases(rng, tier):
         if rng.random() < 0.5:
             yield _matrix_case("upgma_additive", "upgma", [[x * _lcm_products(n) for x in row] for row in _additive(tree, n)], True) \
                 if n <= 8 else _matrix_case("upgma_float", "upgma", [[float(x) for x in row] for row in _additive(tree, n)], False)
+    # ---------------- zero distances: identical taxa, star trees with zero branches, Q-minimum 0 or positive
+    for n in range(4, 9):
+        z = [[0] * n for _ in range(n)]
+        yield _matrix_case("nj_zero", "nj", z, True, additive=True)
+        yield _matrix_case("upgma_zero", "upgma", z, True)
+    for _ in range(40 if quick else 400):
+        n = rng.choice([4, 5, 5, 6, 7, 8])
+        r = rng.random()
+        if r < 0.4:
+            # star tree: a few taxa on positive branches, the others identical (length 0) at the centre
+            lens = [Fraction(rng.choice([0, 0, 0, 1, 2, 3])) for _ in range(n)]
+            if rng.random() < 0.5:
+                lens = sorted(lens, reverse=True)
+            m = [[(0 if i == j else lens[i] + lens[j]) for j in range(n)] for i in range(n)]
+            yield _matrix_case("nj_star_zero", "nj", m, True, additive=True)
+        elif r < 0.75:
+            # additive matrix of a random tree with mostly zero-length branches (duplicated taxa)
+            tree = _rand_tree(rng, n, dist=lambda rr: Fraction(rr.choice([0, 0, 0, 0, 1, 2, 4])), unary=0.1)
+            m = _additive(tree, n)
+            yield _matrix_case("nj_dup_taxa", "nj", m, True, additive=True, source=tree)
+            if n <= 8:
+                L = _lcm_products(n)
+                yield _matrix_case("upgma_dup_taxa", "upgma", [[x * L for x in row] for row in m], True)
+        else:
+            # blocks of identical taxa at a common distance: the corrected (Q) minimum is 0 or positive late in the run
+            k = rng.randint(1, n - 1)
+            c = rng.choice([0, 4, 8])
+            S = 2 ** (n - 2)
+            for q in range(1, n - 1):
+                S = S * q // math.gcd(S, q)
+            m = [[(0 if (i < k) == (j < k) else c * S) for j in range(n)] for i in range(n)]
+            yield _matrix_case("nj_blocks", "nj", m, True, additive=True)
     # ---------------- malformed matrices (both sides must agree on the rejection)
     for _ in range(30 if quick else 300):
         n = rng.choice([0, 1, 2, 3, 4, 5])
@@ -576,7 +610,7 @@ def run_impl(case):
                 xs = [] if w[2] == "_" else [float(Fraction(x)) for x in w[2].split(",")]
                 m = np.array(xs, dtype=np.float64).reshape(n, n)
                 t = (phylo.upgma if w[0] == "upgma" else phylo.neighbor_joining)(m)
-                out.append("ok " + _dump_canon(t.root))
+                out.append("ok " + _dump_canon(t.root) if isinstance(t, phylo.Tree) else "ok " + repr(t))
             elif w[0] == "write":
                 t = phylo.Tree(_build(_parse_tok(w[3])))
                 s = t.to_newick(labels=_ulabels(w[2]), include_distance=(w[1] == "1"))
@@ -709,6 +743,7 @@ def _lca(a, b):
 def _input_checks(fn, algo, M, n, desc, big):
     """The caller's matrix is never modified and a second call on the same array gives the same tree."""
     import numpy as np
+    from biotite.sequence import phylo
     dtypes = [np.float32] if big else [np.float32, np.float64]
     if all(float(x) == int(float(x)) and abs(float(x)) < 2**31 for row in M for x in row):
         dtypes.append(np.int64 if not big else np.int32)
@@ -725,6 +760,8 @@ def _input_checks(fn, algo, M, n, desc, big):
         if not (same1 and same2):
             return [(f"C19/{algo}/input-matrix-modified",
                      f"the caller's {np.dtype(dt).name} distance matrix was changed by {algo}: {desc}")]
+        if not isinstance(t1, phylo.Tree) or not isinstance(t2, phylo.Tree):
+            return [(f"C19/{algo}/returns-no-tree", f"dtype {np.dtype(dt).name}: {t1!r} / {t2!r} for {desc}")]
         if t1.to_newick() != t2.to_newick():
             return [(f"C19/{algo}/second-call-differs",
                      f"two calls on the same {np.dtype(dt).name} array give {t1.to_newick()[:120]} and {t2.to_newick()[:120]}: {desc}")]
@@ -752,6 +789,10 @@ def _oracle_matrix(case):
     except Exception as e:  # noqa: BLE001
         if valid:
             v.append((f"C19/{algo}/rejects-valid-matrix", f"{type(e).__name__}: {e} for {desc}"))
+        return v
+    if not isinstance(tree, phylo.Tree):
+        if valid:
+            return [(f"C19/{algo}/returns-no-tree", f"{algo} returned {tree!r} instead of a Tree for {desc}")]
         return v
     if not finite:
         return [(f"C19/{algo}/accepts-non-finite", f"no error for {desc}")]
